@@ -204,6 +204,54 @@ class Aliases:
         return _norm(self.expand(node))
 
 
+class FlowAliases:
+    """The flow-sensitive companion of Aliases: a local that has several definitions in the function but exactly one reaching
+    a given statement is read, there, as the attribute chain it was assigned (`b = existing; if …(b.value): …; b = other`
+    reads `b.value` as `existing.value` at the test).  The roots of the chain must have the same reaching definitions at the
+    definition and at the use."""
+
+    def __init__(self, fn: ast.AST, cfg=None):
+        from sa.cfg import CFG, ReachingDefs
+        self.cfg = cfg or CFG(fn)
+        self.rd = ReachingDefs(self.cfg)
+
+    @staticmethod
+    def _root(e):
+        while isinstance(e, ast.Attribute):
+            e = e.value
+        return e if isinstance(e, ast.Name) else None
+
+    def expand_at(self, node, e: ast.AST, depth: int = 4) -> ast.AST:
+        import copy
+        me = self
+
+        class R(ast.NodeTransformer):
+            def visit_Name(self, n):
+                if not isinstance(n.ctx, ast.Load) or depth <= 0:
+                    return n
+                ds = me.rd.defs_at(node, n.id)
+                if len(ds) != 1:
+                    return n
+                d = next(iter(ds))
+                if not (isinstance(d, ast.Assign) and len(d.targets) == 1 and isinstance(d.targets[0], ast.Name)) and \
+                        not (isinstance(d, ast.AnnAssign) and isinstance(d.target, ast.Name) and d.value is not None):
+                    return n
+                v = d.value
+                root = me._root(v)
+                dn = me.cfg.node_of(d)
+                if root is None or dn is None or root.id == n.id:
+                    return n
+                if me.rd.defs_at(dn, root.id) != me.rd.defs_at(node, root.id):
+                    return n
+                return ast.copy_location(me.expand_at(dn, copy.deepcopy(v), depth - 1), n)
+
+        return R().visit(copy.deepcopy(e))
+
+    def norm_at(self, node, e: ast.AST) -> str:
+        from sa.model import norm as _norm
+        return _norm(self.expand_at(node, e))
+
+
 def expression_facts(pm: dict, node: ast.AST) -> list[tuple[ast.AST, bool]]:
     """(test, truth) pairs that hold where `node` is evaluated because of the expressions that enclose it: the test of a
     conditional expression for its arms, earlier operands of and/or, the `if` clauses of a comprehension for its element.
@@ -308,3 +356,22 @@ def unroll_literal_loops(fn: ast.AST, consts: dict, limit: int = 16) -> ast.AST:
     new.body = do(new.body)
     ast.fix_missing_locations(new)
     return new
+
+
+def tail_into_cases(fn: ast.FunctionDef) -> ast.FunctionDef:
+    """A copy of `fn` in which the statements that follow a top-level `match` (a tail shared by the arms that fall out of it:
+    `inner = target.body` … `return resolve(inner, chain)`) are copied to the end of every arm that can fall through, so each
+    arm reads as the self-contained sequence of statements that runs for that kind of node."""
+    import copy
+    fn = copy.deepcopy(fn)
+    for i, st in enumerate(fn.body):
+        if isinstance(st, ast.Match):
+            tail = fn.body[i + 1:]
+            if not tail:
+                return fn
+            for c in st.cases:
+                last = c.body[-1] if c.body else None
+                if not isinstance(last, (ast.Return, ast.Raise)):
+                    c.body = list(c.body) + copy.deepcopy(tail)
+            return fn
+    return fn
